@@ -47,7 +47,7 @@ const (
 	wkConnRead
 	wkConnWrite
 	wkAccept
-	wkFlag // enabled when *flag != 0
+	wkFlag      // enabled when *flag != 0
 	wkFlagFalse // enabled when *bool is false
 )
 
